@@ -122,6 +122,46 @@ def judge(ctx, res, path, query, valid, where, case, cls=None, hs_cls=None):
     return "other"
 
 
+
+def holds_alone(c):
+    """the single-request case `c` served by a freshly built application on freshly imported pydap modules: True when
+    the property holds then (the failure seen in the run depended on what the process had served before)"""
+    from collections import Counter
+    G.fresh_pydap()
+    BaseHandler, SSF = load()
+    spec = spec_from_sexp(c["dataset"])
+    ds = G.build(spec)
+    app = {"handler": lambda: BaseHandler(ds), "ssf": lambda: SSF(BaseHandler(ds)), "gzip": lambda: BaseHandler(ds, gzip=True),
+           "lazy": lambda: BaseHandler(G.build(spec, lazy="plain"))}[c["app"]]()
+    res = G.run_request(app, c["path"], c["query"])
+    q = common.Ctx("C15", "quick", 0)
+    q.findings = []
+    q.notes_count = Counter()
+    judge(q, res, c["path"], c["query"], c["class"].startswith(("valid/known-ext", "valid/other-ext")), c["app"], c)
+    return not q.oracle_failures
+
+
+def settle(ctx, n0, case, budget):
+    """failures recorded since position n0 belong to the single-request `case`: when the request is answered correctly by a
+    fresh process, say so and rank the case behind the self-contained ones (its replay would hold)"""
+    if len(ctx.oracle_failures) == n0:
+        return False
+    if budget[0] <= 0:
+        for f in ctx.oracle_failures[n0:]:        # not re-checked: ranked behind the cases known to replay on their own
+            f["size"] += 5 * 10 ** 5
+        return False
+    budget[0] -= 1
+    try:
+        alone = holds_alone(case)
+    except Exception:
+        alone = False
+    if alone:
+        for f in ctx.oracle_failures[n0:]:
+            f["what"] += " - only after what this process had served before: a fresh process answers the same request correctly"
+            f["size"] += 10 ** 6
+    return True
+
+
 def table_cases(ctx):
     """the response table and the error-document shape of the model vs the source"""
     BaseHandler, _ = load()
@@ -183,7 +223,9 @@ def explore(ctx, tier, search=False):
         case = {"app": "handler", "path": path, "query": q, "dataset": sx0, "class": "reached/fixed"}
         judge(ctx, res, path, q, False, "handler", case)
         exc_cases.append(("h-exc %s %s %s" % (sx0, G.hx(path), G.hx(q)), res, case))
+    settle_budget = [40]
     for di in range(n_ds):
+        BaseHandler, SSF = load()      # (the modules may have been imported anew by `settle`)
         spec = G.gen_dataset(rng, ambiguous=rng.random() < 0.3)
         sx = G.ds_sexp(spec)
         ds = G.build(spec)
@@ -213,7 +255,9 @@ def explore(ctx, tier, search=False):
             valid = kind == "valid" and pcls in ("known-ext", "other-ext")
             hs_cls = None      # the finding HS_KEY is repaired: a 200 whose body raises is a violation wherever it occurs
             case = {"app": "handler", "path": path, "query": q, "dataset": sx, "class": kind + "/" + pcls}
+            n0 = len(ctx.oracle_failures)
             verdict = judge(ctx, res, path, q, valid, "handler", case, hs_cls=hs_cls)
+            reloaded = settle(ctx, n0, case, settle_budget)
             impl = canon_impl(res)
             cases.append(("h-handle %s %s %s" % (sx, G.hx(path), G.hx(q)), impl, case))
             exc_cases.append(("h-exc %s %s %s" % (sx, G.hx(path), G.hx(q)), res, case))
@@ -227,7 +271,9 @@ def explore(ctx, tier, search=False):
                     continue
                 r2 = G.run_request(apps[name], path, q)
                 c2 = dict(case, app=name)
+                n0 = len(ctx.oracle_failures)
                 v2 = judge(ctx, r2, path, q, valid, name, c2, cls=SSF_ESCAPE if name == "ssf" else None, hs_cls=hs_cls)
+                reloaded = settle(ctx, n0, c2, settle_budget) or reloaded
                 ctx.count((name, sx, path, q), True, tag="%s:%s|%s" % (name, kind, v2))
     # correspondence: the model may leave the inside of the guarded region unresolved ("answered"):
     # then only the fact that the application answered is compared
